@@ -263,25 +263,66 @@ package jsonpath
 //@   ensures escaped(arg0) && extVal(ret0)
 
 //@ func (*syntaxBasicNode).retrieveAnyValueNext
-//@   props C03 C04 C05 C06 C20
+//@   props C03 C04 C05 C06 C20 C12 C13 C16
 //@   decreases 3*hgt(i)
 //@   requires WFbasic(i) && extVal(nextSrc)
 //@   include retrieveFrame
 //@   ensures single: singleNext(i) ==> len(container.result) <= old(len(container.result)) + 1
+//@   ensures leafplain: i.next == nil && !i.accessorMode ==> ret == nil && len(container.result) == old(len(container.result)) + 1 && elemAt(container.result, old(len(container.result))) == nextSrc
+//@   ensures leafacc: i.next == nil && i.accessorMode ==> ret == nil && len(container.result) == old(len(container.result)) + 1 && isType(elemAt(container.result, old(len(container.result))), Accessor) && asType(elemAt(container.result, old(len(container.result))), Accessor).Set == nil && cloFn(asType(elemAt(container.result, old(len(container.result))), Accessor).Get) == fnconst("(*syntaxBasicNode).retrieveAnyValueNext$1") && C_Val[cloBind(asType(elemAt(container.result, old(len(container.result))), Accessor).Get, 0)] == nextSrc
 
 //@ func (*syntaxBasicNode).retrieveMapNext
-//@   props C03 C04 C05 C06 C20
+//@   props C03 C04 C05 C06 C20 C12 C13 C16
 //@   decreases 3*hgt(i)
 //@   requires WFbasic(i) && errRT(i)
 //@   include retrieveFrame
 //@   ensures single: singleNext(i) ==> len(container.result) <= old(len(container.result)) + 1
+//@   ensures missing: !(currentMap != nil && has(currentMap, key)) ==> isType(ret, ErrorMemberNotExist) && asType(ret, ErrorMemberNotExist).errorBasicRuntime == i.errorRuntime
+//@   ensures leafplain: currentMap != nil && has(currentMap, key) && i.next == nil && !i.accessorMode ==> ret == nil && len(container.result) == old(len(container.result)) + 1 && elemAt(container.result, old(len(container.result))) == currentMap[key]
+//@   ensures leafacc: currentMap != nil && has(currentMap, key) && i.next == nil && i.accessorMode ==> ret == nil && len(container.result) == old(len(container.result)) + 1 && isType(elemAt(container.result, old(len(container.result))), Accessor) && accMapLoc(asType(elemAt(container.result, old(len(container.result))), Accessor), currentMap, key)
 
 //@ func (*syntaxBasicNode).retrieveListNext
-//@   props C03 C04 C05 C06 C20
+//@   props C03 C04 C05 C06 C20 C12 C13 C16
 //@   decreases 3*hgt(i)
 //@   requires WFbasic(i) && 0 <= index && index < len(currentList) && RO(currentList)
 //@   include retrieveFrame
 //@   ensures single: singleNext(i) ==> len(container.result) <= old(len(container.result)) + 1
+//@   ensures leafplain: i.next == nil && !i.accessorMode ==> ret == nil && len(container.result) == old(len(container.result)) + 1 && elemAt(container.result, old(len(container.result))) == currentList[index]
+//@   ensures leafacc: i.next == nil && i.accessorMode ==> ret == nil && len(container.result) == old(len(container.result)) + 1 && isType(elemAt(container.result, old(len(container.result))), Accessor) && accListLoc(asType(elemAt(container.result, old(len(container.result))), Accessor), currentList, index)
+
+// C13: an accessor for a map member / list element is the pair of closures over cells holding (map, key) / (list, index)
+//@ spec accMapLoc(a Accessor, m map[string]interface{}, k string) bool = cloFn(a.Get) == fnconst("(*syntaxBasicNode).retrieveMapNext$1") && cloFn(a.Set) == fnconst("(*syntaxBasicNode).retrieveMapNext$2") && C_Int[cloBind(a.Get, 0)] == m && C_Str[cloBind(a.Get, 1)] == k && cloBind(a.Set, 0) == cloBind(a.Get, 0) && cloBind(a.Set, 1) == cloBind(a.Get, 1) && a.Set != nil && a.Get != nil
+//@ spec accListLoc(a Accessor, l []interface{}, n int) bool = cloFn(a.Get) == fnconst("(*syntaxBasicNode).retrieveListNext$1") && cloFn(a.Set) == fnconst("(*syntaxBasicNode).retrieveListNext$2") && C_Slice[cloBind(a.Get, 0)] == l && C_Int[cloBind(a.Get, 1)] == n && cloBind(a.Set, 0) == cloBind(a.Get, 0) && cloBind(a.Set, 1) == cloBind(a.Get, 1) && a.Set != nil && a.Get != nil
+
+//@ func (*syntaxBasicNode).retrieveAnyValueNext$1
+//@   props C12 C13
+//@   ensures value: ret == nextSrc
+
+//@ func (*syntaxBasicNode).retrieveMapNext$1
+//@   props C12 C13
+//@   ensures live: (currentMap != nil && has(currentMap, key) ==> ret == currentMap[key]) && (!(currentMap != nil && has(currentMap, key)) ==> ret == nil)
+
+//@ func (*syntaxBasicNode).retrieveMapNext$2
+//@   props C13 C04
+//@   requires currentMap != nil
+//@   modifies obj(currentMap)
+//@   ensures set: has(currentMap, key) && currentMap[key] == value
+//@   ensures only: forall m, k Str {M_val[m][k]} :: (m != currentMap || k != key) ==> M_val[m][k] == old(M_val[m][k])
+//@   ensures dom: forall m, k Str {M_dom[m][k]} :: (m != currentMap || k != key) ==> M_dom[m][k] == old(M_dom[m][k])
+
+//@ func (*syntaxBasicNode).retrieveListNext$1
+//@   props C12 C13
+//@   requires 0 <= index && index < len(currentList)
+//@   ensures live: ret == currentList[index]
+
+//@ func (*syntaxBasicNode).retrieveListNext$2
+//@   props C13 C04
+//@   requires 0 <= index && index < len(currentList) && wf(currentList) && mine(currentList)
+//@   modifies elems(currentList)
+//@   ensures set: currentList[index] == value
+//@   ensures only: forall a, j {A_Val[a][j]} :: (a != arr(currentList) || j != off(currentList) + index) ==> A_Val[a][j] == old(A_Val[a][j])
+
+//@ readset accmode C12: syntaxBasicNode.accessorMode only in (*syntaxBasicNode).retrieveAnyValueNext, (*syntaxBasicNode).retrieveMapNext, (*syntaxBasicNode).retrieveListNext, (*syntaxBasicNode).setAccessorMode, (*jsonPathParser).*
 
 //@ func (*syntaxBasicNode).addDeepestError
 //@   props C03 C15 C20
